@@ -617,7 +617,7 @@ impl BranchNodeBuilder {
 
             let RawSeparatorsData {
                 start: mut base_separator_bytes_start,
-                byte_len: base_separator_bytes_len,
+                byte_len: mut base_separator_bytes_len,
                 bit_start: mut base_separator_bit_start,
                 bit_len: base_separator_bit_len,
             } = base.view().raw_separators_data(base_index, base_index + 1);
@@ -664,6 +664,10 @@ impl BranchNodeBuilder {
                     &mut base_separator_bytes_start,
                 );
                 bit_len = separator_bit_len;
+                // fewer bits are read, possibly starting some bytes later: `bitwise_memcpy` expects
+                // the smallest source, multiple of 8 bytes, that contains them
+                base_separator_bytes_len =
+                    ((base_separator_bit_start + bit_len + 7) / 8).next_multiple_of(8);
             }
 
             bitwise_memcpy(
